@@ -26,11 +26,24 @@ theorem line_total' (box : Bound α) (hb : BoxOK box) (isOpen : Bool) (inp : Lis
   exact ⟨out, h⟩
 
 theorem segLoop_closed_spec' (box : Bound α) (hb : BoxOK box) (a b : Pt α) :
-    (match segLoop box 8 a b (bitCode box a) (bitCode box b) with
+    (match segLoop box false 8 a b (bitCode box a) (bitCode box b) 0 0 with
      | .accept a' b' _ => InBox box a' ∧ InBox box b' ∧ OnSeg a b a' ∧ OnSeg a b b' ∧
          ∀ q, OnSeg a b q → (InBox box q ↔ OnSeg a' b' q)
      | .reject => ∀ q, OnSeg a b q → ¬ InBox box q
-     | .stuck => False) := segLoop_closed hb a b
+     | .stuck => False) := by
+  rw [segLoop_eq_segLoopU hb false (W_bitCode hb a) (W_bitCode hb b) (bitCount_bitCode_le box a)
+    (bitCount_bitCode_le box b) (fun h => Bool.noConfusion h) 8]
+  exact segLoop_closed hb a b
+
+/-- the rounding guards of the inner loop change nothing over an ordered field: started as `lineStep`
+    starts it (either option), the loop is the loop without them -/
+theorem segLoop_guard_unused' (box : Bound α) (hb : BoxOK box) (isOpen : Bool) (a b : Pt α) :
+    segLoop box isOpen 8 a b (if isOpen then bitCodeOpen box a else bitCode box a)
+        (if isOpen then bitCodeOpen box b else bitCode box b) 0 0 =
+      segLoopU box 8 a b (if isOpen then bitCodeOpen box a else bitCode box a)
+        (if isOpen then bitCodeOpen box b else bitCode box b) :=
+  segLoop_eq_segLoopU hb isOpen (W_code hb isOpen a) (W_code hb isOpen b) (bitCount_code_le box isOpen a)
+    (bitCount_code_le box isOpen b) (fun ho => by subst ho; exact ⟨rfl, rfl⟩) 8
 
 theorem clip_vertices_in_box' (box : Bound α) (hb : BoxOK box) (isOpen : Bool) (inp : List (Pt α))
     (out : List (List (Pt α))) (h : line box isOpen inp = some out) :
